@@ -123,6 +123,37 @@ def rule_p1(ctx, F):
                                  ("a seek selects a range that ends after the position", "included_range->end_byte > self->current_position.bytes", True)], accept_desc="selecting included range i")
 
 
+# who may move the start of the token being lexed, and under which licence
+TOKEN_START_WRITERS = {
+    "ts_lexer_start": None,                                          # a new token starts at the current position
+    "ts_lexer__do_advance": [("skip", True)],                        # skipped characters precede the token
+    "ts_lexer__advance": [("skip", True)],
+    "ts_lexer_finish": [("self->token_end_position.bytes < self->token_start_position.bytes", True)],   # final clamp, once per token
+}
+
+
+def rule_w2(ctx, F):
+    """W2: the start of a token moves only forward over skipped characters (or is clamped once, in ts_lexer_finish).
+    mark_end may be called several times per token: if it also pulled the start back to the previous range's end, a later
+    mark_end would move the end forward again and the token would span the excluded gap between the two ranges."""
+    n = 0
+    for fn in F.fn_list:
+        if not fn.file.startswith("lib/src") or not fn.blocks:
+            continue
+        sts = [pt for pt, x, l, op in stores(fn) if writes_record(l, "Lexer") == "token_start_position"]
+        if not sts:
+            continue
+        n += len(sts)
+        if fn.name not in TOKEN_START_WRITERS:
+            ctx.bad("W2", "Lexer.token_start_position:writer:" + fn.name, "%s stores to Lexer.token_start_position (%s); the token start may only be set by ts_lexer_start, moved over skipped characters "
+                    "by the advance functions, or clamped by ts_lexer_finish — an external scanner that calls mark_end twice would get a token spanning excluded text" % (fn.name, fn.loc(sts[0])))
+        elif TOKEN_START_WRITERS[fn.name] is None:
+            ctx.ok("W2", "Lexer.token_start_position:writer:" + fn.name, "tabled writer (token start := current position when a token begins)", nontrivial=False)
+        else:
+            ctx.gate("W2", fn, sts, [("the token start moves only under its licence", TOKEN_START_WRITERS[fn.name])], accept_desc="moving the token start")
+    ctx.floor("stores to Lexer.token_start_position", n, 4)
+
+
 def run(ctx):
     for cfg in configs(ctx):
         ctx.config = cfg
@@ -131,6 +162,7 @@ def run(ctx):
         rule_g1(ctx, F)
         rule_w1(ctx, F)
         rule_p1(ctx, F)
+        rule_w2(ctx, F)
         # the included-range difference that invalidates reuse of newly excluded / included text (shared with C04)
         import C04
         C04.rule_p1(ctx, F)
